@@ -36,6 +36,7 @@ type connInfo struct {
 	conn      net.Conn
 	idleTime  int64
 	numInvoke int32
+	notified  int32 // the close (reconnect) message has been written to this connection
 }
 
 func (t *tcpHandler) Listen() (err error) {
@@ -197,6 +198,9 @@ func (t *tcpHandler) sendCloseMsg() {
 		}
 		// send a reconnect-message
 		TLOG.Debugf("send close message to %v", conn.conn.RemoteAddr())
+		if !atomic.CompareAndSwapInt32(&conn.notified, 0, 1) {
+			return true
+		}
 		if _, err := conn.conn.Write(closeMsg); err != nil {
 			TLOG.Errorf("send closeMsg to %v failed %v", conn.conn.RemoteAddr(), err)
 		}
@@ -244,6 +248,13 @@ func (t *tcpHandler) recv(connSt *connInfo) {
 			}
 		}
 		TLOG.Debugf("Close connection: %v", conn.RemoteAddr())
+		if atomic.LoadInt32(&t.server.isClosed) == 1 && atomic.CompareAndSwapInt32(&connSt.notified, 0, 1) {
+			// the server is shutting down and the poller has not got to this connection yet:
+			// the client is told to reconnect before its connection goes away
+			if _, err := conn.Write(t.server.protocol.GetCloseMsg()); err != nil {
+				TLOG.Errorf("send closeMsg to %v failed %v", conn.RemoteAddr(), err)
+			}
+		}
 		conn.Close()
 		if vhook.Enabled {
 			vhook.At("tcp.recv.closed", conn)
